@@ -60,7 +60,7 @@ Definition is_unsub_kind (k : tkind) : bool := match k with KUnsub => true | _ =
 
 Definition calls_ok (s : state) : Prop :=
   match calls s with
-  | [] => ntasks s = 0 /\ nreqs s = 0 /\ subs s = [] /\ routed s = [] /\ rtask s = None
+  | [] => ntasks s = 0 /\ nreqs s = 0 /\ subs s = [] /\ routed s = [] /\ rtask s = None /\ g_inflight s = false
   | c0 :: us =>
       is_sub_kind (kindof s c0) = true /\
       (forall u, In u us -> is_unsub_kind (kindof s u) = true) /\
@@ -110,25 +110,25 @@ Definition phase_ok (s : state) : Prop :=
   | _ =>
       let c := cur s in
       match kindof s c, pcof s c with
-      | KSub _, PStart => subs s = [] /\ routed s = [] /\ rtask s = None /\ ntasks s = 1 /\ nreqs s = 0
+      | KSub _, PStart => g_inflight s = false /\ subs s = [] /\ routed s = [] /\ rtask s = None /\ ntasks s = 1 /\ nreqs s = 0
       | KSub _, PSubReq now0 todo v r =>
-          rtask s = None /\ ntasks s = 1 /\ map fst (subs s) = map fst (routed s) /\
+          g_inflight s = false /\ rtask s = None /\ ntasks s = 1 /\ map fst (subs s) = map fst (routed s) /\
           map snd (routed s) ++ v :: todo = interesting (svcs s) /\ sorted_lt (map fst (routed s)) /\
           (forall k, In k (dkeys (routed s)) -> k < nsid s) /\ resp_fresh s r /\
           (q_state (reqs s r) = QPending -> r < nreqs s) /\ q_kind (reqs s r) = QSub
-      | KSub _, PUnsubGather _ (Some _) => subs s = [] /\ rtask s = None
-      | KSub _, PDone (SExc _) => subs s = [] /\ routed s = [] /\ rtask s = None /\ all_done s
+      | KSub _, PUnsubGather _ (Some _) => g_inflight s = false /\ subs s = [] /\ rtask s = None
+      | KSub _, PDone (SExc _) => g_inflight s = false /\ subs s = [] /\ routed s = [] /\ rtask s = None /\ all_done s
       | KSub _, PDone (SRet _) =>
           match rtask s with
           | None => all_subscribed s /\ all_done s
-          | Some lt => pcof s lt = PStart -> all_subscribed s
+          | Some lt => (forall r, r < nreqs s -> q_bg (reqs s r) = false) -> all_subscribed s
           end
       | KUnsub, PStart =>
           2 < length (calls s) ->
           subs s = [] /\ rtask s = None /\ (forall t, t < ntasks s -> t <> c -> donep s t) /\
           (g_inflight s = false -> routed s = [])
-      | KUnsub, PUnsubTask _ lt None => subs s = [] /\ rtask s = Some lt /\ (donep s lt \/ doomed s lt)
-      | KUnsub, PUnsubGather _ None => subs s = [] /\ rtask s = None
+      | KUnsub, PUnsubTask _ lt None => length (calls s) = 2 /\ subs s = [] /\ rtask s = Some lt /\ (donep s lt \/ doomed s lt)
+      | KUnsub, PUnsubGather _ None => length (calls s) = 2 /\ subs s = [] /\ rtask s = None
       | KUnsub, PDone _ => subs s = [] /\ rtask s = None /\ all_done s /\ (g_inflight s = false -> routed s = [])
       | _, _ => False
       end
@@ -159,6 +159,8 @@ Record Inv (pend : list handle) (s : state) : Prop := mkInv {
   iv_req : forall r, r < nreqs s -> q_state (reqs s r) = QPending ->
            q_task (reqs s r) < ntasks s /\ awaits (pcof s (q_task (reqs s r))) r;
   iv_reqb : forall t, t < ntasks s -> forall r, awaits (pcof s t) r -> r < nreqs s;
+  iv_reqo : forall t, t < ntasks s -> forall r, awaits (pcof s t) r -> q_task (reqs s r) = t;
+  iv_bg : forall r, r < nreqs s -> q_bg (reqs s r) = is_loop (tasks s (q_task (reqs s r))) /\ q_task (reqs s r) < ntasks s;
   iv_sid : NoDup (dkeys (subs s)) /\ NoDup (dkeys (routed s)) /\ incl (dkeys (subs s)) (dkeys (routed s));
   iv_svc : (forall x v, In (x, v) (routed s) -> svc_interesting (svcs s) v = true) /\
            (forall r, r < nreqs s -> svc_interesting (svcs s) (q_svc (reqs s r)) = true);
@@ -168,6 +170,7 @@ Record Inv (pend : list handle) (s : state) : Prop := mkInv {
              (forall lt p r, rtask s = Some lt -> pcof s lt = PPass p StRenew r -> ~ doomed s lt);
   iv_phase : phase_ok s;
   iv_wait : forall t, t < ntasks s -> forall h, In h (t_waiters (tasks s t)) -> exists u, h = HStep u;
+  iv_beyond : forall t, ntasks s <= t -> tasks s t = dummy_task;
   iv_count : count_ok pend s
 }.
 
